@@ -182,23 +182,23 @@ pub mod ka {
     }
 }
 // bound: keepalive, variant concrete, cookie any u16 of the 3-byte head class; 8-byte buffer, walker <= 4 heads; unwind 10
-wf!(c22_q_ka_keepalive_wf, ka::Message, 8, 4, 10, ka::Message::KeepAlive(any_u16()), ka::eq);
-rt!(c22_q_ka_keepalive_rt, ka::Message, 8, 4, 10, ka::Message::KeepAlive(any_u16()), ka::eq);
-wf!(c22_q_ka_response_wf, ka::Message, 8, 4, 10, ka::Message::ResponseKeepAlive(any_u16()), ka::eq);
-rt!(c22_q_ka_response_rt, ka::Message, 8, 4, 10, ka::Message::ResponseKeepAlive(any_u16()), ka::eq);
-wf!(c22_q_ka_done_wf, ka::Message, 8, 4, 10, ka::Message::Done, ka::eq);
-rt!(c22_q_ka_done_rt, ka::Message, 8, 4, 10, ka::Message::Done, ka::eq);
+wf!(c22_q_n1_ka_keepalive_wf, ka::Message, 8, 4, 10, ka::Message::KeepAlive(any_u16()), ka::eq);
+rt!(c22_q_n1_ka_keepalive_rt, ka::Message, 8, 4, 10, ka::Message::KeepAlive(any_u16()), ka::eq);
+wf!(c22_q_n1_ka_response_wf, ka::Message, 8, 4, 10, ka::Message::ResponseKeepAlive(any_u16()), ka::eq);
+rt!(c22_q_n1_ka_response_rt, ka::Message, 8, 4, 10, ka::Message::ResponseKeepAlive(any_u16()), ka::eq);
+wf!(c22_q_n1_ka_done_wf, ka::Message, 8, 4, 10, ka::Message::Done, ka::eq);
+rt!(c22_q_n1_ka_done_rt, ka::Message, 8, 4, 10, ka::Message::Done, ka::eq);
 
 // ---------------------------------------------------------------------------------------------
 // Point
 // ---------------------------------------------------------------------------------------------
 // bound: Point::Origin / Point::Specific(any u64 slot, hash of 0 / 3 symbolic bytes); 16-byte buffer, walker <= 4 heads; unwind 10
-wf!(c22_q_point_origin_wf, Point, 16, 4, 10, point_k(0, 0), eq_point);
-rt!(c22_q_point_origin_rt, Point, 16, 4, 10, point_k(0, 0), eq_point);
-wf!(c22_t_point_specific0_wf, Point, 16, 4, 10, point_k(1, 0), eq_point);
-rt!(c22_t_point_specific0_rt, Point, 16, 4, 10, point_k(1, 0), eq_point);
-wf!(c22_q_point_specific3_wf, Point, 16, 4, 10, point_k(1, 3), eq_point);
-rt!(c22_t_point_specific3_rt, Point, 16, 4, 10, point_k(1, 3), eq_point);
+wf!(c22_q_n1_point_origin_wf, Point, 16, 4, 10, point_k(0, 0), eq_point);
+rt!(c22_q_n1_point_origin_rt, Point, 16, 4, 10, point_k(0, 0), eq_point);
+wf!(c22_t_n1_point_specific0_wf, Point, 16, 4, 10, point_k(1, 0), eq_point);
+rt!(c22_t_n1_point_specific0_rt, Point, 16, 4, 10, point_k(1, 0), eq_point);
+wf!(c22_q_n1_point_specific3_wf, Point, 16, 4, 10, point_k(1, 3), eq_point);
+rt!(c22_t_n1_point_specific3_rt, Point, 16, 4, 10, point_k(1, 3), eq_point);
 
 // ---------------------------------------------------------------------------------------------
 // blockfetch
@@ -219,24 +219,24 @@ pub mod bf {
     }
 }
 // bound: blockfetch, variant concrete; RequestRange with (Specific, Specific) 1-byte hashes / (Origin, Specific) / (Origin, Origin), slots any u64; Block body of 0 / 3 symbolic bytes; 32-byte buffer, walker <= 10 heads; unwind 12
-wf!(c22_q_bf_range_ss_wf, bf::Message, 32, 10, 12, bf::Message::RequestRange { range: (point_k(1, 1), point_k(1, 1)) }, bf::eq);
-rt!(c22_t_bf_range_ss_rt, bf::Message, 32, 10, 12, bf::Message::RequestRange { range: (point_k(1, 1), point_k(1, 1)) }, bf::eq);
-wf!(c22_t_bf_range_os_wf, bf::Message, 32, 10, 12, bf::Message::RequestRange { range: (point_k(0, 0), point_k(1, 1)) }, bf::eq);
-rt!(c22_t_bf_range_os_rt, bf::Message, 32, 10, 12, bf::Message::RequestRange { range: (point_k(0, 0), point_k(1, 1)) }, bf::eq);
-wf!(c22_t_bf_range_oo_wf, bf::Message, 32, 10, 12, bf::Message::RequestRange { range: (point_k(0, 0), point_k(0, 0)) }, bf::eq);
-rt!(c22_t_bf_range_oo_rt, bf::Message, 32, 10, 12, bf::Message::RequestRange { range: (point_k(0, 0), point_k(0, 0)) }, bf::eq);
-wf!(c22_t_bf_clientdone_wf, bf::Message, 32, 10, 12, bf::Message::ClientDone, bf::eq);
-rt!(c22_t_bf_clientdone_rt, bf::Message, 32, 10, 12, bf::Message::ClientDone, bf::eq);
-wf!(c22_q_bf_startbatch_wf, bf::Message, 32, 10, 12, bf::Message::StartBatch, bf::eq);
-rt!(c22_q_bf_startbatch_rt, bf::Message, 32, 10, 12, bf::Message::StartBatch, bf::eq);
-wf!(c22_t_bf_noblocks_wf, bf::Message, 32, 10, 12, bf::Message::NoBlocks, bf::eq);
-rt!(c22_t_bf_noblocks_rt, bf::Message, 32, 10, 12, bf::Message::NoBlocks, bf::eq);
-wf!(c22_t_bf_block0_wf, bf::Message, 32, 10, 12, bf::Message::Block { body: bytes_n(0) }, bf::eq);
-rt!(c22_t_bf_block0_rt, bf::Message, 32, 10, 12, bf::Message::Block { body: bytes_n(0) }, bf::eq);
-wf!(c22_q_bf_block3_wf, bf::Message, 32, 10, 12, bf::Message::Block { body: bytes_n(3) }, bf::eq);
-rt!(c22_q_bf_block3_rt, bf::Message, 32, 10, 12, bf::Message::Block { body: bytes_n(3) }, bf::eq);
-wf!(c22_t_bf_batchdone_wf, bf::Message, 32, 10, 12, bf::Message::BatchDone, bf::eq);
-rt!(c22_t_bf_batchdone_rt, bf::Message, 32, 10, 12, bf::Message::BatchDone, bf::eq);
+wf!(c22_q_n1_bf_range_ss_wf, bf::Message, 32, 10, 12, bf::Message::RequestRange { range: (point_k(1, 1), point_k(1, 1)) }, bf::eq);
+rt!(c22_t_n1_bf_range_ss_rt, bf::Message, 32, 10, 12, bf::Message::RequestRange { range: (point_k(1, 1), point_k(1, 1)) }, bf::eq);
+wf!(c22_t_n1_bf_range_os_wf, bf::Message, 32, 10, 12, bf::Message::RequestRange { range: (point_k(0, 0), point_k(1, 1)) }, bf::eq);
+rt!(c22_t_n1_bf_range_os_rt, bf::Message, 32, 10, 12, bf::Message::RequestRange { range: (point_k(0, 0), point_k(1, 1)) }, bf::eq);
+wf!(c22_t_n1_bf_range_oo_wf, bf::Message, 32, 10, 12, bf::Message::RequestRange { range: (point_k(0, 0), point_k(0, 0)) }, bf::eq);
+rt!(c22_t_n1_bf_range_oo_rt, bf::Message, 32, 10, 12, bf::Message::RequestRange { range: (point_k(0, 0), point_k(0, 0)) }, bf::eq);
+wf!(c22_t_n1_bf_clientdone_wf, bf::Message, 32, 10, 12, bf::Message::ClientDone, bf::eq);
+rt!(c22_t_n1_bf_clientdone_rt, bf::Message, 32, 10, 12, bf::Message::ClientDone, bf::eq);
+wf!(c22_q_n1_bf_startbatch_wf, bf::Message, 32, 10, 12, bf::Message::StartBatch, bf::eq);
+rt!(c22_q_n1_bf_startbatch_rt, bf::Message, 32, 10, 12, bf::Message::StartBatch, bf::eq);
+wf!(c22_t_n1_bf_noblocks_wf, bf::Message, 32, 10, 12, bf::Message::NoBlocks, bf::eq);
+rt!(c22_t_n1_bf_noblocks_rt, bf::Message, 32, 10, 12, bf::Message::NoBlocks, bf::eq);
+wf!(c22_t_n1_bf_block0_wf, bf::Message, 32, 10, 12, bf::Message::Block { body: bytes_n(0) }, bf::eq);
+rt!(c22_t_n1_bf_block0_rt, bf::Message, 32, 10, 12, bf::Message::Block { body: bytes_n(0) }, bf::eq);
+wf!(c22_q_n1_bf_block3_wf, bf::Message, 32, 10, 12, bf::Message::Block { body: bytes_n(3) }, bf::eq);
+rt!(c22_q_n1_bf_block3_rt, bf::Message, 32, 10, 12, bf::Message::Block { body: bytes_n(3) }, bf::eq);
+wf!(c22_t_n1_bf_batchdone_wf, bf::Message, 32, 10, 12, bf::Message::BatchDone, bf::eq);
+rt!(c22_t_n1_bf_batchdone_rt, bf::Message, 32, 10, 12, bf::Message::BatchDone, bf::eq);
 
 // ---------------------------------------------------------------------------------------------
 // chainsync (HeaderContent)
@@ -300,34 +300,34 @@ pub mod cs {
     }
 }
 // bound: chainsync<HeaderContent>, variant concrete; slots / block numbers any u64; point hashes 0..1 byte; header cbor 0..1 byte (nested CBOR-in-CBOR variants); FindIntersect with 0, 1, 2 points; 48-byte buffer, walker <= 16 heads; unwind 18
-wf!(c22_t_cs_requestnext_wf, cs::Message, 48, 16, 18, cs::Message::RequestNext, cs::eq);
-rt!(c22_t_cs_requestnext_rt, cs::Message, 48, 16, 18, cs::Message::RequestNext, cs::eq);
-wf!(c22_t_cs_awaitreply_wf, cs::Message, 48, 16, 18, cs::Message::AwaitReply, cs::eq);
-rt!(c22_t_cs_awaitreply_rt, cs::Message, 48, 16, 18, cs::Message::AwaitReply, cs::eq);
-wf!(c22_t_cs_rollforward_shelley_wf, cs::Message, 48, 16, 18, cs::Message::RollForward(cs::content(false, 1), cs::tip_k(1, 1)), cs::eq);
-rt!(c22_t_cs_rollforward_shelley_rt, cs::Message, 48, 16, 18, cs::Message::RollForward(cs::content(false, 1), cs::tip_k(1, 1)), cs::eq);
-wf!(c22_t_cs_rollforward_byron_wf, cs::Message, 48, 16, 18, cs::Message::RollForward(cs::content(true, 1), cs::tip_k(1, 0)), cs::eq);
-rt!(c22_t_cs_rollforward_byron_rt, cs::Message, 48, 16, 18, cs::Message::RollForward(cs::content(true, 1), cs::tip_k(1, 0)), cs::eq);
-wf!(c22_t_cs_rollforward_shelley_origin_wf, cs::Message, 48, 16, 18, cs::Message::RollForward(cs::content(false, 0), cs::tip_k(0, 0)), cs::eq);
-rt!(c22_t_cs_rollforward_shelley_origin_rt, cs::Message, 48, 16, 18, cs::Message::RollForward(cs::content(false, 0), cs::tip_k(0, 0)), cs::eq);
-wf!(c22_q_cs_rollbackward_wf, cs::Message, 48, 16, 18, cs::Message::RollBackward(point_k(1, 1), cs::tip_k(1, 1)), cs::eq);
-rt!(c22_t_cs_rollbackward_rt, cs::Message, 48, 16, 18, cs::Message::RollBackward(point_k(1, 1), cs::tip_k(1, 1)), cs::eq);
-wf!(c22_t_cs_rollbackward_origin_wf, cs::Message, 48, 16, 18, cs::Message::RollBackward(point_k(0, 0), cs::tip_k(1, 0)), cs::eq);
-rt!(c22_t_cs_rollbackward_origin_rt, cs::Message, 48, 16, 18, cs::Message::RollBackward(point_k(0, 0), cs::tip_k(1, 0)), cs::eq);
-wf!(c22_t_cs_findintersect0_wf, cs::Message, 48, 16, 18, cs::Message::FindIntersect(cs::points(0)), cs::eq);
-rt!(c22_t_cs_findintersect0_rt, cs::Message, 48, 16, 18, cs::Message::FindIntersect(cs::points(0)), cs::eq);
-wf!(c22_q_cs_findintersect1_wf, cs::Message, 48, 16, 18, cs::Message::FindIntersect(cs::points(1)), cs::eq);
-rt!(c22_t_cs_findintersect1_rt, cs::Message, 48, 16, 18, cs::Message::FindIntersect(cs::points(1)), cs::eq);
-wf!(c22_t_cs_findintersect2_wf, cs::Message, 48, 16, 18, cs::Message::FindIntersect(cs::points(2)), cs::eq);
-rt!(c22_t_cs_findintersect2_rt, cs::Message, 48, 16, 18, cs::Message::FindIntersect(cs::points(2)), cs::eq);
-wf!(c22_t_cs_intersectfound_wf, cs::Message, 48, 16, 18, cs::Message::IntersectFound(point_k(1, 1), cs::tip_k(1, 1)), cs::eq);
-rt!(c22_t_cs_intersectfound_rt, cs::Message, 48, 16, 18, cs::Message::IntersectFound(point_k(1, 1), cs::tip_k(1, 1)), cs::eq);
-wf!(c22_t_cs_intersectnotfound_wf, cs::Message, 48, 16, 18, cs::Message::IntersectNotFound(cs::tip_k(1, 1)), cs::eq);
-rt!(c22_t_cs_intersectnotfound_rt, cs::Message, 48, 16, 18, cs::Message::IntersectNotFound(cs::tip_k(1, 1)), cs::eq);
-wf!(c22_t_cs_intersectnotfound_origin_wf, cs::Message, 48, 16, 18, cs::Message::IntersectNotFound(cs::tip_k(0, 0)), cs::eq);
-rt!(c22_t_cs_intersectnotfound_origin_rt, cs::Message, 48, 16, 18, cs::Message::IntersectNotFound(cs::tip_k(0, 0)), cs::eq);
-wf!(c22_q_cs_done_wf, cs::Message, 48, 16, 18, cs::Message::Done, cs::eq);
-rt!(c22_q_cs_done_rt, cs::Message, 48, 16, 18, cs::Message::Done, cs::eq);
+wf!(c22_t_n1_cs_requestnext_wf, cs::Message, 48, 16, 18, cs::Message::RequestNext, cs::eq);
+rt!(c22_t_n1_cs_requestnext_rt, cs::Message, 48, 16, 18, cs::Message::RequestNext, cs::eq);
+wf!(c22_t_n1_cs_awaitreply_wf, cs::Message, 48, 16, 18, cs::Message::AwaitReply, cs::eq);
+rt!(c22_t_n1_cs_awaitreply_rt, cs::Message, 48, 16, 18, cs::Message::AwaitReply, cs::eq);
+wf!(c22_t_n1_cs_rollforward_shelley_wf, cs::Message, 48, 16, 18, cs::Message::RollForward(cs::content(false, 1), cs::tip_k(1, 1)), cs::eq);
+rt!(c22_t_n1_cs_rollforward_shelley_rt, cs::Message, 48, 16, 18, cs::Message::RollForward(cs::content(false, 1), cs::tip_k(1, 1)), cs::eq);
+wf!(c22_t_n1_cs_rollforward_byron_wf, cs::Message, 48, 16, 18, cs::Message::RollForward(cs::content(true, 1), cs::tip_k(1, 0)), cs::eq);
+rt!(c22_t_n1_cs_rollforward_byron_rt, cs::Message, 48, 16, 18, cs::Message::RollForward(cs::content(true, 1), cs::tip_k(1, 0)), cs::eq);
+wf!(c22_t_n1_cs_rollforward_shelley_origin_wf, cs::Message, 48, 16, 18, cs::Message::RollForward(cs::content(false, 0), cs::tip_k(0, 0)), cs::eq);
+rt!(c22_t_n1_cs_rollforward_shelley_origin_rt, cs::Message, 48, 16, 18, cs::Message::RollForward(cs::content(false, 0), cs::tip_k(0, 0)), cs::eq);
+wf!(c22_q_n1_cs_rollbackward_wf, cs::Message, 48, 16, 18, cs::Message::RollBackward(point_k(1, 1), cs::tip_k(1, 1)), cs::eq);
+rt!(c22_t_n1_cs_rollbackward_rt, cs::Message, 48, 16, 18, cs::Message::RollBackward(point_k(1, 1), cs::tip_k(1, 1)), cs::eq);
+wf!(c22_t_n1_cs_rollbackward_origin_wf, cs::Message, 48, 16, 18, cs::Message::RollBackward(point_k(0, 0), cs::tip_k(1, 0)), cs::eq);
+rt!(c22_t_n1_cs_rollbackward_origin_rt, cs::Message, 48, 16, 18, cs::Message::RollBackward(point_k(0, 0), cs::tip_k(1, 0)), cs::eq);
+wf!(c22_t_n1_cs_findintersect0_wf, cs::Message, 48, 16, 18, cs::Message::FindIntersect(cs::points(0)), cs::eq);
+rt!(c22_t_n1_cs_findintersect0_rt, cs::Message, 48, 16, 18, cs::Message::FindIntersect(cs::points(0)), cs::eq);
+wf!(c22_q_n1_cs_findintersect1_wf, cs::Message, 48, 16, 18, cs::Message::FindIntersect(cs::points(1)), cs::eq);
+rt!(c22_t_n1_cs_findintersect1_rt, cs::Message, 48, 16, 18, cs::Message::FindIntersect(cs::points(1)), cs::eq);
+wf!(c22_t_n1_cs_findintersect2_wf, cs::Message, 48, 16, 18, cs::Message::FindIntersect(cs::points(2)), cs::eq);
+rt!(c22_t_n1_cs_findintersect2_rt, cs::Message, 48, 16, 18, cs::Message::FindIntersect(cs::points(2)), cs::eq);
+wf!(c22_t_n1_cs_intersectfound_wf, cs::Message, 48, 16, 18, cs::Message::IntersectFound(point_k(1, 1), cs::tip_k(1, 1)), cs::eq);
+rt!(c22_t_n1_cs_intersectfound_rt, cs::Message, 48, 16, 18, cs::Message::IntersectFound(point_k(1, 1), cs::tip_k(1, 1)), cs::eq);
+wf!(c22_t_n1_cs_intersectnotfound_wf, cs::Message, 48, 16, 18, cs::Message::IntersectNotFound(cs::tip_k(1, 1)), cs::eq);
+rt!(c22_t_n1_cs_intersectnotfound_rt, cs::Message, 48, 16, 18, cs::Message::IntersectNotFound(cs::tip_k(1, 1)), cs::eq);
+wf!(c22_t_n1_cs_intersectnotfound_origin_wf, cs::Message, 48, 16, 18, cs::Message::IntersectNotFound(cs::tip_k(0, 0)), cs::eq);
+rt!(c22_t_n1_cs_intersectnotfound_origin_rt, cs::Message, 48, 16, 18, cs::Message::IntersectNotFound(cs::tip_k(0, 0)), cs::eq);
+wf!(c22_q_n1_cs_done_wf, cs::Message, 48, 16, 18, cs::Message::Done, cs::eq);
+rt!(c22_q_n1_cs_done_rt, cs::Message, 48, 16, 18, cs::Message::Done, cs::eq);
 
 // ---------------------------------------------------------------------------------------------
 // txsubmission
@@ -422,30 +422,30 @@ pub mod tx {
     }
 }
 // bound: txsubmission, variant concrete; blocking flag / counts / eras / sizes symbolic; lists of 0, 1, 2 elements; tx ids and bodies 0..1 byte; 40-byte buffer, walker <= 16 heads; unwind 18
-wf!(c22_t_tx_init_wf, tx::Message, 40, 16, 18, tx::Message::Init, tx::eq);
-rt!(c22_q_tx_init_rt, tx::Message, 40, 16, 18, tx::Message::Init, tx::eq);
-wf!(c22_q_tx_requesttxids_wf, tx::Message, 40, 16, 18, tx::Message::RequestTxIds(kani::any(), any_u16(), any_u16()), tx::eq);
-rt!(c22_t_tx_requesttxids_rt, tx::Message, 40, 16, 18, tx::Message::RequestTxIds(kani::any(), any_u16(), any_u16()), tx::eq);
-wf!(c22_t_tx_replytxids0_wf, tx::Message, 40, 16, 18, tx::Message::ReplyTxIds(tx::idsizes(0)), tx::eq);
-rt!(c22_t_tx_replytxids0_rt, tx::Message, 40, 16, 18, tx::Message::ReplyTxIds(tx::idsizes(0)), tx::eq);
-wf!(c22_q_tx_replytxids1_wf, tx::Message, 40, 16, 18, tx::Message::ReplyTxIds(tx::idsizes(1)), tx::eq);
-rt!(c22_t_tx_replytxids1_rt, tx::Message, 40, 16, 18, tx::Message::ReplyTxIds(tx::idsizes(1)), tx::eq);
-wf!(c22_t_tx_replytxids2_wf, tx::Message, 40, 16, 18, tx::Message::ReplyTxIds(tx::idsizes(2)), tx::eq);
-rt!(c22_t_tx_replytxids2_rt, tx::Message, 40, 16, 18, tx::Message::ReplyTxIds(tx::idsizes(2)), tx::eq);
-wf!(c22_t_tx_requesttxs0_wf, tx::Message, 40, 16, 18, tx::Message::RequestTxs(tx::ids(0)), tx::eq);
-rt!(c22_t_tx_requesttxs0_rt, tx::Message, 40, 16, 18, tx::Message::RequestTxs(tx::ids(0)), tx::eq);
-wf!(c22_t_tx_requesttxs1_wf, tx::Message, 40, 16, 18, tx::Message::RequestTxs(tx::ids(1)), tx::eq);
-rt!(c22_t_tx_requesttxs1_rt, tx::Message, 40, 16, 18, tx::Message::RequestTxs(tx::ids(1)), tx::eq);
-wf!(c22_t_tx_requesttxs2_wf, tx::Message, 40, 16, 18, tx::Message::RequestTxs(tx::ids(2)), tx::eq);
-rt!(c22_t_tx_requesttxs2_rt, tx::Message, 40, 16, 18, tx::Message::RequestTxs(tx::ids(2)), tx::eq);
-wf!(c22_t_tx_replytxs0_wf, tx::Message, 40, 16, 18, tx::Message::ReplyTxs(tx::bodies(0)), tx::eq);
-rt!(c22_t_tx_replytxs0_rt, tx::Message, 40, 16, 18, tx::Message::ReplyTxs(tx::bodies(0)), tx::eq);
-wf!(c22_q_tx_replytxs1_wf, tx::Message, 40, 16, 18, tx::Message::ReplyTxs(tx::bodies(1)), tx::eq);
-rt!(c22_t_tx_replytxs1_rt, tx::Message, 40, 16, 18, tx::Message::ReplyTxs(tx::bodies(1)), tx::eq);
-wf!(c22_t_tx_replytxs2_wf, tx::Message, 40, 16, 18, tx::Message::ReplyTxs(tx::bodies(2)), tx::eq);
-rt!(c22_t_tx_replytxs2_rt, tx::Message, 40, 16, 18, tx::Message::ReplyTxs(tx::bodies(2)), tx::eq);
-wf!(c22_t_tx_done_wf, tx::Message, 40, 16, 18, tx::Message::Done, tx::eq);
-rt!(c22_t_tx_done_rt, tx::Message, 40, 16, 18, tx::Message::Done, tx::eq);
+wf!(c22_t_n1_tx_init_wf, tx::Message, 40, 16, 18, tx::Message::Init, tx::eq);
+rt!(c22_q_n1_tx_init_rt, tx::Message, 40, 16, 18, tx::Message::Init, tx::eq);
+wf!(c22_q_n1_tx_requesttxids_wf, tx::Message, 40, 16, 18, tx::Message::RequestTxIds(kani::any(), any_u16(), any_u16()), tx::eq);
+rt!(c22_t_n1_tx_requesttxids_rt, tx::Message, 40, 16, 18, tx::Message::RequestTxIds(kani::any(), any_u16(), any_u16()), tx::eq);
+wf!(c22_t_n1_tx_replytxids0_wf, tx::Message, 40, 16, 18, tx::Message::ReplyTxIds(tx::idsizes(0)), tx::eq);
+rt!(c22_t_n1_tx_replytxids0_rt, tx::Message, 40, 16, 18, tx::Message::ReplyTxIds(tx::idsizes(0)), tx::eq);
+wf!(c22_q_n1_tx_replytxids1_wf, tx::Message, 40, 16, 18, tx::Message::ReplyTxIds(tx::idsizes(1)), tx::eq);
+rt!(c22_t_n1_tx_replytxids1_rt, tx::Message, 40, 16, 18, tx::Message::ReplyTxIds(tx::idsizes(1)), tx::eq);
+wf!(c22_t_n1_tx_replytxids2_wf, tx::Message, 40, 16, 18, tx::Message::ReplyTxIds(tx::idsizes(2)), tx::eq);
+rt!(c22_t_n1_tx_replytxids2_rt, tx::Message, 40, 16, 18, tx::Message::ReplyTxIds(tx::idsizes(2)), tx::eq);
+wf!(c22_t_n1_tx_requesttxs0_wf, tx::Message, 40, 16, 18, tx::Message::RequestTxs(tx::ids(0)), tx::eq);
+rt!(c22_t_n1_tx_requesttxs0_rt, tx::Message, 40, 16, 18, tx::Message::RequestTxs(tx::ids(0)), tx::eq);
+wf!(c22_t_n1_tx_requesttxs1_wf, tx::Message, 40, 16, 18, tx::Message::RequestTxs(tx::ids(1)), tx::eq);
+rt!(c22_t_n1_tx_requesttxs1_rt, tx::Message, 40, 16, 18, tx::Message::RequestTxs(tx::ids(1)), tx::eq);
+wf!(c22_t_n1_tx_requesttxs2_wf, tx::Message, 40, 16, 18, tx::Message::RequestTxs(tx::ids(2)), tx::eq);
+rt!(c22_t_n1_tx_requesttxs2_rt, tx::Message, 40, 16, 18, tx::Message::RequestTxs(tx::ids(2)), tx::eq);
+wf!(c22_t_n1_tx_replytxs0_wf, tx::Message, 40, 16, 18, tx::Message::ReplyTxs(tx::bodies(0)), tx::eq);
+rt!(c22_t_n1_tx_replytxs0_rt, tx::Message, 40, 16, 18, tx::Message::ReplyTxs(tx::bodies(0)), tx::eq);
+wf!(c22_q_n1_tx_replytxs1_wf, tx::Message, 40, 16, 18, tx::Message::ReplyTxs(tx::bodies(1)), tx::eq);
+rt!(c22_t_n1_tx_replytxs1_rt, tx::Message, 40, 16, 18, tx::Message::ReplyTxs(tx::bodies(1)), tx::eq);
+wf!(c22_t_n1_tx_replytxs2_wf, tx::Message, 40, 16, 18, tx::Message::ReplyTxs(tx::bodies(2)), tx::eq);
+rt!(c22_t_n1_tx_replytxs2_rt, tx::Message, 40, 16, 18, tx::Message::ReplyTxs(tx::bodies(2)), tx::eq);
+wf!(c22_t_n1_tx_done_wf, tx::Message, 40, 16, 18, tx::Message::Done, tx::eq);
+rt!(c22_t_n1_tx_done_rt, tx::Message, 40, 16, 18, tx::Message::Done, tx::eq);
 
 // ---------------------------------------------------------------------------------------------
 // peersharing
@@ -498,101 +498,101 @@ pub mod ps {
     }
 }
 // bound: peersharing, variant concrete; amount any u8; SharePeers with 0 / 1 / 2 IPv4 peers, every address and port; 40-byte buffer, walker <= 12 heads; unwind 14
-wf!(c22_q_ps_sharerequest_wf, ps::Message, 40, 12, 14, ps::Message::ShareRequest(any_u8()), ps::eq);
-rt!(c22_q_ps_sharerequest_rt, ps::Message, 40, 12, 14, ps::Message::ShareRequest(any_u8()), ps::eq);
-wf!(c22_t_ps_sharepeers0_wf, ps::Message, 40, 12, 14, ps::Message::SharePeers(Vec::new()), ps::eq);
-rt!(c22_t_ps_sharepeers0_rt, ps::Message, 40, 12, 14, ps::Message::SharePeers(Vec::new()), ps::eq);
-wf!(c22_q_ps_sharepeers1_v4_wf, ps::Message, 40, 12, 14, ps::Message::SharePeers(vec![ps::v4()]), ps::eq);
-rt!(c22_t_ps_sharepeers1_v4_rt, ps::Message, 40, 12, 14, ps::Message::SharePeers(vec![ps::v4()]), ps::eq);
-wf!(c22_t_ps_sharepeers2_v4_wf, ps::Message, 40, 12, 14, ps::Message::SharePeers(vec![ps::v4(), ps::v4()]), ps::eq);
-rt!(c22_t_ps_sharepeers2_v4_rt, ps::Message, 40, 12, 14, ps::Message::SharePeers(vec![ps::v4(), ps::v4()]), ps::eq);
-wf!(c22_t_ps_done_wf, ps::Message, 40, 12, 14, ps::Message::Done, ps::eq);
-rt!(c22_q_ps_done_rt, ps::Message, 40, 12, 14, ps::Message::Done, ps::eq);
-wf!(c22_q_ps_addr_v4_wf, ps::PeerAddress, 40, 12, 14, ps::v4(), ps::eq_addr);
-rt!(c22_t_ps_addr_v4_rt, ps::PeerAddress, 40, 12, 14, ps::v4(), ps::eq_addr);
+wf!(c22_q_n1_ps_sharerequest_wf, ps::Message, 40, 12, 14, ps::Message::ShareRequest(any_u8()), ps::eq);
+rt!(c22_q_n1_ps_sharerequest_rt, ps::Message, 40, 12, 14, ps::Message::ShareRequest(any_u8()), ps::eq);
+wf!(c22_t_n1_ps_sharepeers0_wf, ps::Message, 40, 12, 14, ps::Message::SharePeers(Vec::new()), ps::eq);
+rt!(c22_t_n1_ps_sharepeers0_rt, ps::Message, 40, 12, 14, ps::Message::SharePeers(Vec::new()), ps::eq);
+wf!(c22_q_n1_ps_sharepeers1_v4_wf, ps::Message, 40, 12, 14, ps::Message::SharePeers(vec![ps::v4()]), ps::eq);
+rt!(c22_t_n1_ps_sharepeers1_v4_rt, ps::Message, 40, 12, 14, ps::Message::SharePeers(vec![ps::v4()]), ps::eq);
+wf!(c22_t_n1_ps_sharepeers2_v4_wf, ps::Message, 40, 12, 14, ps::Message::SharePeers(vec![ps::v4(), ps::v4()]), ps::eq);
+rt!(c22_t_n1_ps_sharepeers2_v4_rt, ps::Message, 40, 12, 14, ps::Message::SharePeers(vec![ps::v4(), ps::v4()]), ps::eq);
+wf!(c22_t_n1_ps_done_wf, ps::Message, 40, 12, 14, ps::Message::Done, ps::eq);
+rt!(c22_q_n1_ps_done_rt, ps::Message, 40, 12, 14, ps::Message::Done, ps::eq);
+wf!(c22_q_n1_ps_addr_v4_wf, ps::PeerAddress, 40, 12, 14, ps::v4(), ps::eq_addr);
+rt!(c22_t_n1_ps_addr_v4_rt, ps::PeerAddress, 40, 12, 14, ps::v4(), ps::eq_addr);
 // bound: peersharing IPv6 peer address, every address and port, alone and as the single element of SharePeers; 40-byte buffer, walker <= 12 heads; unwind 14
-// finding: c22_q_ps_addr_v6_wf / c22_q_ps_sharepeers1_v6_wf are expected FAILED on the current tree (array(8) head followed by 6 items)
-wf!(c22_q_ps_addr_v6_wf, ps::PeerAddress, 40, 12, 14, ps::v6(), ps::eq_addr);
-rt!(c22_t_ps_addr_v6_rt, ps::PeerAddress, 40, 12, 14, ps::v6(), ps::eq_addr);
-wf!(c22_q_ps_sharepeers1_v6_wf, ps::Message, 40, 12, 14, ps::Message::SharePeers(vec![ps::v6()]), ps::eq);
-rt!(c22_t_ps_sharepeers1_v6_rt, ps::Message, 40, 12, 14, ps::Message::SharePeers(vec![ps::v6()]), ps::eq);
+// finding: c22_q_n1_ps_addr_v6_wf / c22_q_n1_ps_sharepeers1_v6_wf are expected FAILED on the current tree (array(8) head followed by 6 items)
+wf!(c22_q_n1_ps_addr_v6_wf, ps::PeerAddress, 40, 12, 14, ps::v6(), ps::eq_addr);
+rt!(c22_t_n1_ps_addr_v6_rt, ps::PeerAddress, 40, 12, 14, ps::v6(), ps::eq_addr);
+wf!(c22_q_n1_ps_sharepeers1_v6_wf, ps::Message, 40, 12, 14, ps::Message::SharePeers(vec![ps::v6()]), ps::eq);
+rt!(c22_t_n1_ps_sharepeers1_v6_rt, ps::Message, 40, 12, 14, ps::Message::SharePeers(vec![ps::v6()]), ps::eq);
 
 // bound: head-class sweep (classes 0..3 = 1, 2, 3, 5-byte integer encodings; class 4 is the default of every harness above): keepalive cookie, Point slot; unwind 10
-wf!(c22_t_ka_keepalive_k0_wf, ka::Message, 8, 4, 10, ka::Message::KeepAlive(any_u16()), ka::eq, 0);
-rt!(c22_t_ka_keepalive_k0_rt, ka::Message, 8, 4, 10, ka::Message::KeepAlive(any_u16()), ka::eq, 0);
-wf!(c22_t_ka_keepalive_k1_wf, ka::Message, 8, 4, 10, ka::Message::KeepAlive(any_u16()), ka::eq, 1);
-rt!(c22_t_ka_keepalive_k1_rt, ka::Message, 8, 4, 10, ka::Message::KeepAlive(any_u16()), ka::eq, 1);
-wf!(c22_t_point_specific3_k0_wf, Point, 16, 4, 10, point_k(1, 3), eq_point, 0);
-rt!(c22_t_point_specific3_k0_rt, Point, 16, 4, 10, point_k(1, 3), eq_point, 0);
-wf!(c22_t_point_specific3_k1_wf, Point, 16, 4, 10, point_k(1, 3), eq_point, 1);
-rt!(c22_t_point_specific3_k1_rt, Point, 16, 4, 10, point_k(1, 3), eq_point, 1);
-wf!(c22_t_point_specific3_k2_wf, Point, 16, 4, 10, point_k(1, 3), eq_point, 2);
-rt!(c22_t_point_specific3_k2_rt, Point, 16, 4, 10, point_k(1, 3), eq_point, 2);
-wf!(c22_t_point_specific3_k3_wf, Point, 16, 4, 10, point_k(1, 3), eq_point, 3);
-rt!(c22_t_point_specific3_k3_rt, Point, 16, 4, 10, point_k(1, 3), eq_point, 3);
+wf!(c22_t_n1_ka_keepalive_k0_wf, ka::Message, 8, 4, 10, ka::Message::KeepAlive(any_u16()), ka::eq, 0);
+rt!(c22_t_n1_ka_keepalive_k0_rt, ka::Message, 8, 4, 10, ka::Message::KeepAlive(any_u16()), ka::eq, 0);
+wf!(c22_t_n1_ka_keepalive_k1_wf, ka::Message, 8, 4, 10, ka::Message::KeepAlive(any_u16()), ka::eq, 1);
+rt!(c22_t_n1_ka_keepalive_k1_rt, ka::Message, 8, 4, 10, ka::Message::KeepAlive(any_u16()), ka::eq, 1);
+wf!(c22_t_n1_point_specific3_k0_wf, Point, 16, 4, 10, point_k(1, 3), eq_point, 0);
+rt!(c22_t_n1_point_specific3_k0_rt, Point, 16, 4, 10, point_k(1, 3), eq_point, 0);
+wf!(c22_t_n1_point_specific3_k1_wf, Point, 16, 4, 10, point_k(1, 3), eq_point, 1);
+rt!(c22_t_n1_point_specific3_k1_rt, Point, 16, 4, 10, point_k(1, 3), eq_point, 1);
+wf!(c22_t_n1_point_specific3_k2_wf, Point, 16, 4, 10, point_k(1, 3), eq_point, 2);
+rt!(c22_t_n1_point_specific3_k2_rt, Point, 16, 4, 10, point_k(1, 3), eq_point, 2);
+wf!(c22_t_n1_point_specific3_k3_wf, Point, 16, 4, 10, point_k(1, 3), eq_point, 3);
+rt!(c22_t_n1_point_specific3_k3_rt, Point, 16, 4, 10, point_k(1, 3), eq_point, 3);
 
 // bound: head-class sweep (classes 0..3) for one variant per scalar shape: blockfetch RequestRange, chainsync RollForward(byron) / RollBackward, txsubmission RequestTxIds / ReplyTxIds(1), peersharing ShareRequest / SharePeers(1 IPv4); buffers and walker bounds as in the class-4 harness of the same variant
-wf!(c22_t_bf_range_ss_k0_wf, bf::Message, 32, 10, 12, bf::Message::RequestRange { range: (point_k(1, 1), point_k(1, 1)) }, bf::eq, 0);
-rt!(c22_t_bf_range_ss_k0_rt, bf::Message, 32, 10, 12, bf::Message::RequestRange { range: (point_k(1, 1), point_k(1, 1)) }, bf::eq, 0);
-wf!(c22_t_bf_range_ss_k1_wf, bf::Message, 32, 10, 12, bf::Message::RequestRange { range: (point_k(1, 1), point_k(1, 1)) }, bf::eq, 1);
-rt!(c22_t_bf_range_ss_k1_rt, bf::Message, 32, 10, 12, bf::Message::RequestRange { range: (point_k(1, 1), point_k(1, 1)) }, bf::eq, 1);
-wf!(c22_t_bf_range_ss_k2_wf, bf::Message, 32, 10, 12, bf::Message::RequestRange { range: (point_k(1, 1), point_k(1, 1)) }, bf::eq, 2);
-rt!(c22_t_bf_range_ss_k2_rt, bf::Message, 32, 10, 12, bf::Message::RequestRange { range: (point_k(1, 1), point_k(1, 1)) }, bf::eq, 2);
-wf!(c22_t_bf_range_ss_k3_wf, bf::Message, 32, 10, 12, bf::Message::RequestRange { range: (point_k(1, 1), point_k(1, 1)) }, bf::eq, 3);
-rt!(c22_t_bf_range_ss_k3_rt, bf::Message, 32, 10, 12, bf::Message::RequestRange { range: (point_k(1, 1), point_k(1, 1)) }, bf::eq, 3);
-wf!(c22_t_cs_rollforward_byron_k0_wf, cs::Message, 48, 16, 18, cs::Message::RollForward(cs::content(true, 1), cs::tip_k(1, 0)), cs::eq, 0);
-rt!(c22_t_cs_rollforward_byron_k0_rt, cs::Message, 48, 16, 18, cs::Message::RollForward(cs::content(true, 1), cs::tip_k(1, 0)), cs::eq, 0);
-wf!(c22_t_cs_rollforward_byron_k1_wf, cs::Message, 48, 16, 18, cs::Message::RollForward(cs::content(true, 1), cs::tip_k(1, 0)), cs::eq, 1);
-rt!(c22_t_cs_rollforward_byron_k1_rt, cs::Message, 48, 16, 18, cs::Message::RollForward(cs::content(true, 1), cs::tip_k(1, 0)), cs::eq, 1);
-wf!(c22_t_cs_rollforward_byron_k2_wf, cs::Message, 48, 16, 18, cs::Message::RollForward(cs::content(true, 1), cs::tip_k(1, 0)), cs::eq, 2);
-rt!(c22_t_cs_rollforward_byron_k2_rt, cs::Message, 48, 16, 18, cs::Message::RollForward(cs::content(true, 1), cs::tip_k(1, 0)), cs::eq, 2);
-wf!(c22_t_cs_rollforward_byron_k3_wf, cs::Message, 48, 16, 18, cs::Message::RollForward(cs::content(true, 1), cs::tip_k(1, 0)), cs::eq, 3);
-rt!(c22_t_cs_rollforward_byron_k3_rt, cs::Message, 48, 16, 18, cs::Message::RollForward(cs::content(true, 1), cs::tip_k(1, 0)), cs::eq, 3);
-wf!(c22_t_cs_rollbackward_k0_wf, cs::Message, 48, 16, 18, cs::Message::RollBackward(point_k(1, 1), cs::tip_k(1, 1)), cs::eq, 0);
-rt!(c22_t_cs_rollbackward_k0_rt, cs::Message, 48, 16, 18, cs::Message::RollBackward(point_k(1, 1), cs::tip_k(1, 1)), cs::eq, 0);
-wf!(c22_t_cs_rollbackward_k1_wf, cs::Message, 48, 16, 18, cs::Message::RollBackward(point_k(1, 1), cs::tip_k(1, 1)), cs::eq, 1);
-rt!(c22_t_cs_rollbackward_k1_rt, cs::Message, 48, 16, 18, cs::Message::RollBackward(point_k(1, 1), cs::tip_k(1, 1)), cs::eq, 1);
-wf!(c22_t_cs_rollbackward_k2_wf, cs::Message, 48, 16, 18, cs::Message::RollBackward(point_k(1, 1), cs::tip_k(1, 1)), cs::eq, 2);
-rt!(c22_t_cs_rollbackward_k2_rt, cs::Message, 48, 16, 18, cs::Message::RollBackward(point_k(1, 1), cs::tip_k(1, 1)), cs::eq, 2);
-wf!(c22_t_cs_rollbackward_k3_wf, cs::Message, 48, 16, 18, cs::Message::RollBackward(point_k(1, 1), cs::tip_k(1, 1)), cs::eq, 3);
-rt!(c22_t_cs_rollbackward_k3_rt, cs::Message, 48, 16, 18, cs::Message::RollBackward(point_k(1, 1), cs::tip_k(1, 1)), cs::eq, 3);
-wf!(c22_t_tx_requesttxids_k0_wf, tx::Message, 40, 16, 18, tx::Message::RequestTxIds(kani::any(), any_u16(), any_u16()), tx::eq, 0);
-rt!(c22_t_tx_requesttxids_k0_rt, tx::Message, 40, 16, 18, tx::Message::RequestTxIds(kani::any(), any_u16(), any_u16()), tx::eq, 0);
-wf!(c22_t_tx_requesttxids_k1_wf, tx::Message, 40, 16, 18, tx::Message::RequestTxIds(kani::any(), any_u16(), any_u16()), tx::eq, 1);
-rt!(c22_t_tx_requesttxids_k1_rt, tx::Message, 40, 16, 18, tx::Message::RequestTxIds(kani::any(), any_u16(), any_u16()), tx::eq, 1);
-wf!(c22_t_tx_requesttxids_k2_wf, tx::Message, 40, 16, 18, tx::Message::RequestTxIds(kani::any(), any_u16(), any_u16()), tx::eq, 2);
-rt!(c22_t_tx_requesttxids_k2_rt, tx::Message, 40, 16, 18, tx::Message::RequestTxIds(kani::any(), any_u16(), any_u16()), tx::eq, 2);
-wf!(c22_t_tx_requesttxids_k3_wf, tx::Message, 40, 16, 18, tx::Message::RequestTxIds(kani::any(), any_u16(), any_u16()), tx::eq, 3);
-rt!(c22_t_tx_requesttxids_k3_rt, tx::Message, 40, 16, 18, tx::Message::RequestTxIds(kani::any(), any_u16(), any_u16()), tx::eq, 3);
-wf!(c22_t_tx_replytxids1_k0_wf, tx::Message, 40, 16, 18, tx::Message::ReplyTxIds(tx::idsizes(1)), tx::eq, 0);
-rt!(c22_t_tx_replytxids1_k0_rt, tx::Message, 40, 16, 18, tx::Message::ReplyTxIds(tx::idsizes(1)), tx::eq, 0);
-wf!(c22_t_tx_replytxids1_k1_wf, tx::Message, 40, 16, 18, tx::Message::ReplyTxIds(tx::idsizes(1)), tx::eq, 1);
-rt!(c22_t_tx_replytxids1_k1_rt, tx::Message, 40, 16, 18, tx::Message::ReplyTxIds(tx::idsizes(1)), tx::eq, 1);
-wf!(c22_t_tx_replytxids1_k2_wf, tx::Message, 40, 16, 18, tx::Message::ReplyTxIds(tx::idsizes(1)), tx::eq, 2);
-rt!(c22_t_tx_replytxids1_k2_rt, tx::Message, 40, 16, 18, tx::Message::ReplyTxIds(tx::idsizes(1)), tx::eq, 2);
-wf!(c22_t_tx_replytxids1_k3_wf, tx::Message, 40, 16, 18, tx::Message::ReplyTxIds(tx::idsizes(1)), tx::eq, 3);
-rt!(c22_t_tx_replytxids1_k3_rt, tx::Message, 40, 16, 18, tx::Message::ReplyTxIds(tx::idsizes(1)), tx::eq, 3);
-wf!(c22_t_ps_sharerequest_k0_wf, ps::Message, 40, 12, 14, ps::Message::ShareRequest(any_u8()), ps::eq, 0);
-rt!(c22_t_ps_sharerequest_k0_rt, ps::Message, 40, 12, 14, ps::Message::ShareRequest(any_u8()), ps::eq, 0);
-wf!(c22_t_ps_sharerequest_k1_wf, ps::Message, 40, 12, 14, ps::Message::ShareRequest(any_u8()), ps::eq, 1);
-rt!(c22_t_ps_sharerequest_k1_rt, ps::Message, 40, 12, 14, ps::Message::ShareRequest(any_u8()), ps::eq, 1);
-wf!(c22_t_ps_sharerequest_k2_wf, ps::Message, 40, 12, 14, ps::Message::ShareRequest(any_u8()), ps::eq, 2);
-rt!(c22_t_ps_sharerequest_k2_rt, ps::Message, 40, 12, 14, ps::Message::ShareRequest(any_u8()), ps::eq, 2);
-wf!(c22_t_ps_sharerequest_k3_wf, ps::Message, 40, 12, 14, ps::Message::ShareRequest(any_u8()), ps::eq, 3);
-rt!(c22_t_ps_sharerequest_k3_rt, ps::Message, 40, 12, 14, ps::Message::ShareRequest(any_u8()), ps::eq, 3);
-wf!(c22_t_ps_sharepeers1_v4_k0_wf, ps::Message, 40, 12, 14, ps::Message::SharePeers(vec![ps::v4()]), ps::eq, 0);
-rt!(c22_t_ps_sharepeers1_v4_k0_rt, ps::Message, 40, 12, 14, ps::Message::SharePeers(vec![ps::v4()]), ps::eq, 0);
-wf!(c22_t_ps_sharepeers1_v4_k1_wf, ps::Message, 40, 12, 14, ps::Message::SharePeers(vec![ps::v4()]), ps::eq, 1);
-rt!(c22_t_ps_sharepeers1_v4_k1_rt, ps::Message, 40, 12, 14, ps::Message::SharePeers(vec![ps::v4()]), ps::eq, 1);
-wf!(c22_t_ps_sharepeers1_v4_k2_wf, ps::Message, 40, 12, 14, ps::Message::SharePeers(vec![ps::v4()]), ps::eq, 2);
-rt!(c22_t_ps_sharepeers1_v4_k2_rt, ps::Message, 40, 12, 14, ps::Message::SharePeers(vec![ps::v4()]), ps::eq, 2);
-wf!(c22_t_ps_sharepeers1_v4_k3_wf, ps::Message, 40, 12, 14, ps::Message::SharePeers(vec![ps::v4()]), ps::eq, 3);
-rt!(c22_t_ps_sharepeers1_v4_k3_rt, ps::Message, 40, 12, 14, ps::Message::SharePeers(vec![ps::v4()]), ps::eq, 3);
+wf!(c22_t_n1_bf_range_ss_k0_wf, bf::Message, 32, 10, 12, bf::Message::RequestRange { range: (point_k(1, 1), point_k(1, 1)) }, bf::eq, 0);
+rt!(c22_t_n1_bf_range_ss_k0_rt, bf::Message, 32, 10, 12, bf::Message::RequestRange { range: (point_k(1, 1), point_k(1, 1)) }, bf::eq, 0);
+wf!(c22_t_n1_bf_range_ss_k1_wf, bf::Message, 32, 10, 12, bf::Message::RequestRange { range: (point_k(1, 1), point_k(1, 1)) }, bf::eq, 1);
+rt!(c22_t_n1_bf_range_ss_k1_rt, bf::Message, 32, 10, 12, bf::Message::RequestRange { range: (point_k(1, 1), point_k(1, 1)) }, bf::eq, 1);
+wf!(c22_t_n1_bf_range_ss_k2_wf, bf::Message, 32, 10, 12, bf::Message::RequestRange { range: (point_k(1, 1), point_k(1, 1)) }, bf::eq, 2);
+rt!(c22_t_n1_bf_range_ss_k2_rt, bf::Message, 32, 10, 12, bf::Message::RequestRange { range: (point_k(1, 1), point_k(1, 1)) }, bf::eq, 2);
+wf!(c22_t_n1_bf_range_ss_k3_wf, bf::Message, 32, 10, 12, bf::Message::RequestRange { range: (point_k(1, 1), point_k(1, 1)) }, bf::eq, 3);
+rt!(c22_t_n1_bf_range_ss_k3_rt, bf::Message, 32, 10, 12, bf::Message::RequestRange { range: (point_k(1, 1), point_k(1, 1)) }, bf::eq, 3);
+wf!(c22_t_n1_cs_rollforward_byron_k0_wf, cs::Message, 48, 16, 18, cs::Message::RollForward(cs::content(true, 1), cs::tip_k(1, 0)), cs::eq, 0);
+rt!(c22_t_n1_cs_rollforward_byron_k0_rt, cs::Message, 48, 16, 18, cs::Message::RollForward(cs::content(true, 1), cs::tip_k(1, 0)), cs::eq, 0);
+wf!(c22_t_n1_cs_rollforward_byron_k1_wf, cs::Message, 48, 16, 18, cs::Message::RollForward(cs::content(true, 1), cs::tip_k(1, 0)), cs::eq, 1);
+rt!(c22_t_n1_cs_rollforward_byron_k1_rt, cs::Message, 48, 16, 18, cs::Message::RollForward(cs::content(true, 1), cs::tip_k(1, 0)), cs::eq, 1);
+wf!(c22_t_n1_cs_rollforward_byron_k2_wf, cs::Message, 48, 16, 18, cs::Message::RollForward(cs::content(true, 1), cs::tip_k(1, 0)), cs::eq, 2);
+rt!(c22_t_n1_cs_rollforward_byron_k2_rt, cs::Message, 48, 16, 18, cs::Message::RollForward(cs::content(true, 1), cs::tip_k(1, 0)), cs::eq, 2);
+wf!(c22_t_n1_cs_rollforward_byron_k3_wf, cs::Message, 48, 16, 18, cs::Message::RollForward(cs::content(true, 1), cs::tip_k(1, 0)), cs::eq, 3);
+rt!(c22_t_n1_cs_rollforward_byron_k3_rt, cs::Message, 48, 16, 18, cs::Message::RollForward(cs::content(true, 1), cs::tip_k(1, 0)), cs::eq, 3);
+wf!(c22_t_n1_cs_rollbackward_k0_wf, cs::Message, 48, 16, 18, cs::Message::RollBackward(point_k(1, 1), cs::tip_k(1, 1)), cs::eq, 0);
+rt!(c22_t_n1_cs_rollbackward_k0_rt, cs::Message, 48, 16, 18, cs::Message::RollBackward(point_k(1, 1), cs::tip_k(1, 1)), cs::eq, 0);
+wf!(c22_t_n1_cs_rollbackward_k1_wf, cs::Message, 48, 16, 18, cs::Message::RollBackward(point_k(1, 1), cs::tip_k(1, 1)), cs::eq, 1);
+rt!(c22_t_n1_cs_rollbackward_k1_rt, cs::Message, 48, 16, 18, cs::Message::RollBackward(point_k(1, 1), cs::tip_k(1, 1)), cs::eq, 1);
+wf!(c22_t_n1_cs_rollbackward_k2_wf, cs::Message, 48, 16, 18, cs::Message::RollBackward(point_k(1, 1), cs::tip_k(1, 1)), cs::eq, 2);
+rt!(c22_t_n1_cs_rollbackward_k2_rt, cs::Message, 48, 16, 18, cs::Message::RollBackward(point_k(1, 1), cs::tip_k(1, 1)), cs::eq, 2);
+wf!(c22_t_n1_cs_rollbackward_k3_wf, cs::Message, 48, 16, 18, cs::Message::RollBackward(point_k(1, 1), cs::tip_k(1, 1)), cs::eq, 3);
+rt!(c22_t_n1_cs_rollbackward_k3_rt, cs::Message, 48, 16, 18, cs::Message::RollBackward(point_k(1, 1), cs::tip_k(1, 1)), cs::eq, 3);
+wf!(c22_t_n1_tx_requesttxids_k0_wf, tx::Message, 40, 16, 18, tx::Message::RequestTxIds(kani::any(), any_u16(), any_u16()), tx::eq, 0);
+rt!(c22_t_n1_tx_requesttxids_k0_rt, tx::Message, 40, 16, 18, tx::Message::RequestTxIds(kani::any(), any_u16(), any_u16()), tx::eq, 0);
+wf!(c22_t_n1_tx_requesttxids_k1_wf, tx::Message, 40, 16, 18, tx::Message::RequestTxIds(kani::any(), any_u16(), any_u16()), tx::eq, 1);
+rt!(c22_t_n1_tx_requesttxids_k1_rt, tx::Message, 40, 16, 18, tx::Message::RequestTxIds(kani::any(), any_u16(), any_u16()), tx::eq, 1);
+wf!(c22_t_n1_tx_requesttxids_k2_wf, tx::Message, 40, 16, 18, tx::Message::RequestTxIds(kani::any(), any_u16(), any_u16()), tx::eq, 2);
+rt!(c22_t_n1_tx_requesttxids_k2_rt, tx::Message, 40, 16, 18, tx::Message::RequestTxIds(kani::any(), any_u16(), any_u16()), tx::eq, 2);
+wf!(c22_t_n1_tx_requesttxids_k3_wf, tx::Message, 40, 16, 18, tx::Message::RequestTxIds(kani::any(), any_u16(), any_u16()), tx::eq, 3);
+rt!(c22_t_n1_tx_requesttxids_k3_rt, tx::Message, 40, 16, 18, tx::Message::RequestTxIds(kani::any(), any_u16(), any_u16()), tx::eq, 3);
+wf!(c22_t_n1_tx_replytxids1_k0_wf, tx::Message, 40, 16, 18, tx::Message::ReplyTxIds(tx::idsizes(1)), tx::eq, 0);
+rt!(c22_t_n1_tx_replytxids1_k0_rt, tx::Message, 40, 16, 18, tx::Message::ReplyTxIds(tx::idsizes(1)), tx::eq, 0);
+wf!(c22_t_n1_tx_replytxids1_k1_wf, tx::Message, 40, 16, 18, tx::Message::ReplyTxIds(tx::idsizes(1)), tx::eq, 1);
+rt!(c22_t_n1_tx_replytxids1_k1_rt, tx::Message, 40, 16, 18, tx::Message::ReplyTxIds(tx::idsizes(1)), tx::eq, 1);
+wf!(c22_t_n1_tx_replytxids1_k2_wf, tx::Message, 40, 16, 18, tx::Message::ReplyTxIds(tx::idsizes(1)), tx::eq, 2);
+rt!(c22_t_n1_tx_replytxids1_k2_rt, tx::Message, 40, 16, 18, tx::Message::ReplyTxIds(tx::idsizes(1)), tx::eq, 2);
+wf!(c22_t_n1_tx_replytxids1_k3_wf, tx::Message, 40, 16, 18, tx::Message::ReplyTxIds(tx::idsizes(1)), tx::eq, 3);
+rt!(c22_t_n1_tx_replytxids1_k3_rt, tx::Message, 40, 16, 18, tx::Message::ReplyTxIds(tx::idsizes(1)), tx::eq, 3);
+wf!(c22_t_n1_ps_sharerequest_k0_wf, ps::Message, 40, 12, 14, ps::Message::ShareRequest(any_u8()), ps::eq, 0);
+rt!(c22_t_n1_ps_sharerequest_k0_rt, ps::Message, 40, 12, 14, ps::Message::ShareRequest(any_u8()), ps::eq, 0);
+wf!(c22_t_n1_ps_sharerequest_k1_wf, ps::Message, 40, 12, 14, ps::Message::ShareRequest(any_u8()), ps::eq, 1);
+rt!(c22_t_n1_ps_sharerequest_k1_rt, ps::Message, 40, 12, 14, ps::Message::ShareRequest(any_u8()), ps::eq, 1);
+wf!(c22_t_n1_ps_sharerequest_k2_wf, ps::Message, 40, 12, 14, ps::Message::ShareRequest(any_u8()), ps::eq, 2);
+rt!(c22_t_n1_ps_sharerequest_k2_rt, ps::Message, 40, 12, 14, ps::Message::ShareRequest(any_u8()), ps::eq, 2);
+wf!(c22_t_n1_ps_sharerequest_k3_wf, ps::Message, 40, 12, 14, ps::Message::ShareRequest(any_u8()), ps::eq, 3);
+rt!(c22_t_n1_ps_sharerequest_k3_rt, ps::Message, 40, 12, 14, ps::Message::ShareRequest(any_u8()), ps::eq, 3);
+wf!(c22_t_n1_ps_sharepeers1_v4_k0_wf, ps::Message, 40, 12, 14, ps::Message::SharePeers(vec![ps::v4()]), ps::eq, 0);
+rt!(c22_t_n1_ps_sharepeers1_v4_k0_rt, ps::Message, 40, 12, 14, ps::Message::SharePeers(vec![ps::v4()]), ps::eq, 0);
+wf!(c22_t_n1_ps_sharepeers1_v4_k1_wf, ps::Message, 40, 12, 14, ps::Message::SharePeers(vec![ps::v4()]), ps::eq, 1);
+rt!(c22_t_n1_ps_sharepeers1_v4_k1_rt, ps::Message, 40, 12, 14, ps::Message::SharePeers(vec![ps::v4()]), ps::eq, 1);
+wf!(c22_t_n1_ps_sharepeers1_v4_k2_wf, ps::Message, 40, 12, 14, ps::Message::SharePeers(vec![ps::v4()]), ps::eq, 2);
+rt!(c22_t_n1_ps_sharepeers1_v4_k2_rt, ps::Message, 40, 12, 14, ps::Message::SharePeers(vec![ps::v4()]), ps::eq, 2);
+wf!(c22_t_n1_ps_sharepeers1_v4_k3_wf, ps::Message, 40, 12, 14, ps::Message::SharePeers(vec![ps::v4()]), ps::eq, 3);
+rt!(c22_t_n1_ps_sharepeers1_v4_k3_rt, ps::Message, 40, 12, 14, ps::Message::SharePeers(vec![ps::v4()]), ps::eq, 3);
 
 /// vacuity twin: must come back FAILED
 #[kani::proof]
 #[kani::unwind(10)]
-fn c22_v_twin() {
+fn c22_v_n1_twin() {
     let msg = ka::Message::KeepAlive(any_u16());
     let mut buf = [0u8; 8];
     let (_ok, len) = encode_into(&msg, &mut buf[..]);
